@@ -6,7 +6,9 @@ package state
 // Representation invariant of TrafficKeyState: a retained generation is stored under its own epoch.
 // It holds for the zero value and is preserved by Install (the only writer); callers must not
 // modify a generation after installing it (documented on TrafficGeneration). The two directions
-// use distinct maps.
+// use distinct maps. The invariant is over unexported fields, so callers in other packages cannot
+// state it: it is therefore not a `requires` but a hypothesis of the clauses that need it
+// (`old(TKINV(s)) ==> ...`), and Install proves that it is preserved.
 
 //@ define RETAINED(mp) forallKey(mp, func(e uint16) bool { return mp[e] != nil && mp[e].Epoch == e })
 //@ define TKINV(s) (RETAINED(s.writeOld) && RETAINED(s.readOld) && (s.writeOld == nil || !sameRef(s.writeOld, s.readOld)))
@@ -17,29 +19,29 @@ package state
 //@ end
 
 //@ func TrafficKeyState.Install
-//@ requires inv: TKINV(s)
-//@ ensures inv: TKINV(s)
+//@ requires receiver: s != nil
+//@ ensures inv-preserved: old(TKINV(s)) ==> TKINV(s)
 //@ ensures write-installed: write != nil ==> s.writeCurrent == write
 //@ ensures write-untouched: write == nil ==> s.writeCurrent == old(s.writeCurrent) && sameRef(s.writeOld, old(s.writeOld))
 //@ ensures read-installed: read != nil ==> s.readCurrent == read
 //@ ensures read-untouched: read == nil ==> s.readCurrent == old(s.readCurrent) && sameRef(s.readOld, old(s.readOld))
-//@ ensures previous-read-retained: read != nil && old(s.readCurrent) != nil && old(s.readCurrent.Epoch) != read.Epoch
+//@ ensures previous-read-retained: old(TKINV(s)) && read != nil && old(s.readCurrent) != nil && old(s.readCurrent.Epoch) != read.Epoch
 //@    ==> hasKey(s.readOld, old(s.readCurrent.Epoch)) && s.readOld[old(s.readCurrent.Epoch)] == old(s.readCurrent)
-//@ ensures previous-write-retained: write != nil && old(s.writeCurrent) != nil && old(s.writeCurrent.Epoch) != write.Epoch
+//@ ensures previous-write-retained: old(TKINV(s)) && write != nil && old(s.writeCurrent) != nil && old(s.writeCurrent.Epoch) != write.Epoch
 //@    ==> hasKey(s.writeOld, old(s.writeCurrent.Epoch)) && s.writeOld[old(s.writeCurrent.Epoch)] == old(s.writeCurrent)
-//@ ensures older-reads-kept: forallU16(func(e uint16) bool { return old(hasKey(s.readOld, e)) && !(read != nil && old(s.readCurrent) != nil && e == old(s.readCurrent.Epoch))
+//@ ensures older-reads-kept: old(TKINV(s)) ==> forallU16(func(e uint16) bool { return old(hasKey(s.readOld, e)) && !(read != nil && old(s.readCurrent) != nil && e == old(s.readCurrent.Epoch))
 //@    ==> hasKey(s.readOld, e) && s.readOld[e] == old(s.readOld[e]) })
-//@ ensures older-writes-kept: forallU16(func(e uint16) bool { return old(hasKey(s.writeOld, e)) && !(write != nil && old(s.writeCurrent) != nil && e == old(s.writeCurrent.Epoch))
+//@ ensures older-writes-kept: old(TKINV(s)) ==> forallU16(func(e uint16) bool { return old(hasKey(s.writeOld, e)) && !(write != nil && old(s.writeCurrent) != nil && e == old(s.writeCurrent.Epoch))
 //@    ==> hasKey(s.writeOld, e) && s.writeOld[e] == old(s.writeOld[e]) })
-//@ ensures nothing-invented: forallKey(s.readOld, func(e uint16) bool { return old(hasKey(s.readOld, e)) || s.readOld[e] == old(s.readCurrent) })
+//@ ensures nothing-invented: old(TKINV(s)) ==> forallKey(s.readOld, func(e uint16) bool { return old(hasKey(s.readOld, e)) || s.readOld[e] == old(s.readCurrent) })
 //@ ensures generations-unmodified: (read != nil ==> read.Epoch == old(read.Epoch) && read.Generation == old(read.Generation))
 //@    && (write != nil ==> write.Epoch == old(write.Epoch) && write.Generation == old(write.Generation))
 //@ ensures unlocked: !held("TrafficKeyState.mu")
 //@ end
 
 //@ func TrafficKeyState.Write
-//@ requires inv: TKINV(s)
-//@ ensures epoch-matches: result1 ==> result0 != nil && result0.Epoch == epoch
+//@ requires receiver: s != nil
+//@ ensures epoch-matches: TKINV(s) && result1 ==> result0 != nil && result0.Epoch == epoch
 //@ ensures current-first: s.writeCurrent != nil && s.writeCurrent.Epoch == epoch ==> result1 && result0 == s.writeCurrent
 //@ ensures else-retained: !(s.writeCurrent != nil && s.writeCurrent.Epoch == epoch) ==> result1 == hasKey(s.writeOld, epoch) && result0 == s.writeOld[epoch]
 //@ ensures read-only: s.writeCurrent == old(s.writeCurrent) && sameRef(s.writeOld, old(s.writeOld)) && s.readCurrent == old(s.readCurrent)
@@ -47,8 +49,8 @@ package state
 //@ end
 
 //@ func TrafficKeyState.Read
-//@ requires inv: TKINV(s)
-//@ ensures epoch-matches: result1 ==> result0 != nil && result0.Epoch == epoch
+//@ requires receiver: s != nil
+//@ ensures epoch-matches: TKINV(s) && result1 ==> result0 != nil && result0.Epoch == epoch
 //@ ensures current-first: s.readCurrent != nil && s.readCurrent.Epoch == epoch ==> result1 && result0 == s.readCurrent
 //@ ensures else-retained: !(s.readCurrent != nil && s.readCurrent.Epoch == epoch) ==> result1 == hasKey(s.readOld, epoch) && result0 == s.readOld[epoch]
 //@ ensures read-only: s.readCurrent == old(s.readCurrent) && sameRef(s.readOld, old(s.readOld)) && s.writeCurrent == old(s.writeCurrent)
@@ -61,13 +63,15 @@ package state
 //@ define INSTALLED(s, g) (g != nil && (g == s.readCurrent || (hasKey(s.readOld, g.Epoch) && s.readOld[g.Epoch] == g)))
 
 //@ func TrafficKeyState.ReadCandidates
-//@ requires inv: TKINV(s)
+//@ requires receiver: s != nil
 //@ ensures input-kept: len(result) >= len(candidates) && forall(0, len(candidates), func(i int) bool { return result[i] == old(candidates[i]) })
-//@ ensures only-matching: forall(len(candidates), len(result), func(i int) bool { return INSTALLED(s, result[i]) && uint8(result[i].Epoch & 3) == epochLow })
+//@ ensures only-matching: forall(len(candidates), len(result), func(i int) bool { return result[i] != nil && uint8(result[i].Epoch & 3) == epochLow })
+//@ ensures only-installed: TKINV(s) ==> forall(len(candidates), len(result), func(i int) bool { return INSTALLED(s, result[i]) })
 //@ ensures current-first: s.readCurrent != nil && uint8(s.readCurrent.Epoch & 3) == epochLow ==> len(result) > len(candidates) && result[len(candidates)] == s.readCurrent
 //@ ensures read-only: s.readCurrent == old(s.readCurrent) && sameRef(s.readOld, old(s.readOld))
 //@ ensures unlocked: !held("TrafficKeyState.mu")
 //@ loop #1: input-kept: len(candidates) >= len(old(candidates)) && forall(0, len(old(candidates)), func(i int) bool { return candidates[i] == old(candidates[i]) })
-//@ loop #1: only-matching: forall(len(old(candidates)), len(candidates), func(i int) bool { return INSTALLED(s, candidates[i]) && uint8(candidates[i].Epoch & 3) == epochLow })
+//@ loop #1: only-matching: forall(len(old(candidates)), len(candidates), func(i int) bool { return candidates[i] != nil && uint8(candidates[i].Epoch & 3) == epochLow })
+//@ loop #1: only-installed: TKINV(s) ==> forall(len(old(candidates)), len(candidates), func(i int) bool { return INSTALLED(s, candidates[i]) })
 //@ loop #1: current-first: s.readCurrent != nil && uint8(s.readCurrent.Epoch & 3) == epochLow ==> len(candidates) > len(old(candidates)) && candidates[len(old(candidates))] == s.readCurrent
 //@ end
